@@ -16,15 +16,19 @@ RULE = ("structured generator: surface / volume nets with pairwise different siz
 ASSUMPTIONS = ["knot vectors are generated already normalised to [0,1] (the knot-vector setters' normalisation is then the identity)",
                "rational and polynomial sections are not mixed in one construct_* call",
                "points are lists of floats; dyadic weights make weighting/unweighting exact in binary floating point"]
-THEOREM_NOTES = ("coq/Props/C13.v: all theorems are [G] (all sizes, all nets, any point type), pure nat/list, axiom-free; "
-                 "construct_volume 'u'/'v' and sweep_vector(curve) are modelled in their repaired form (fixes/C13-*.diff)")
+THEOREM_NOTES = ("coq/Props/C13.v: 12 theorems, all [G] (all sizes, all nets, any point type); 11 are pure nat/list and axiom-free, "
+                 "C13_transpose_evaluates_swapped (tensor-product sums over R, S^T(v,u)=S(u,v) for arbitrary coefficient families) uses the "
+                 "standard real-number axioms; construct_volume 'u'/'v' and sweep_vector(curve) are modelled in their repaired form "
+                 "(fixes/C13-*.diff, committed to /repo)")
 LEVEL_TEXT = ("Coq theorems (all general, no bound on sizes/degrees, axiom-free) about the Gallina model coq/Model/Layout.v of the "
               "layout code: index maps are bijections onto [0,su*sv*sw); grid view, managers, flips, transpose, extract/construct "
               "address nth(idx) ; flip_ctrlpts o flip_ctrlpts_u = id; transpose involutive and role-swapping; extract then construct "
               "along the matching direction = original; sweep boundary sections. The model is tied to /repo by an exact (label-level) "
-              "correspondence check on every run; the statement S^T(u,v)=S(v,u) on evaluated points and the evaluator subscripts for "
-              "general degree are tied by the exact Fraction oracle only (evaluation itself is C01's subject).")
-LEVEL_NOTE = ("Trusted: Coq 8.16.1 kernel incl. vm_compute; no axioms (Print Assumptions: closed under the global context); the "
+              "correspondence check on every run. S^T(v,u)=S(u,v) is proved for the tensor-product definition with arbitrary coefficient "
+              "families (the basis values); that geomdl's evaluator computes that definition is C01's subject and is here only tied by the "
+              "exact Fraction oracle (evaluate_single on the transposed / swept shapes, evaluator subscripts at the knots of degree-1 shapes).")
+LEVEL_NOTE = ("Trusted: Coq 8.16.1 kernel incl. vm_compute; no axioms for 11 of 12 theorems (closed under the global context), the standard "
+              "real-number axioms (sig_forall_dec, functional_extensionality_dep) for C13_transpose_evaluates_swapped; the "
               "hand-written model's fidelity is sampled by the correspondence check (exact comparison of decoded point labels, "
               "degrees, sizes and knot vectors); knot-vector normalisation and float conversion inside setters are not modelled "
               "(inputs are normalised floats).")
